@@ -155,3 +155,12 @@ func MustAddr(s string) netip.Addr {
 	}
 	return a.Unmap()
 }
+
+// GenExcl draws the exclude-from-external-load-balancers label: present with probability 1/oneIn, with a value
+// that must not matter (the label is defined by presence).
+func GenExcl(rt *rapid.T, oneIn int) (bool, string) {
+	if rapid.IntRange(0, oneIn-1).Draw(rt, "excluded") != 0 {
+		return false, ""
+	}
+	return true, rapid.SampledFrom([]string{"", "", "true", "false"}).Draw(rt, "excludedValue")
+}
